@@ -611,8 +611,10 @@ def ktable_terms(ix, R, kt, pfx='7'):
     R.check(pfx + '.kI0', 'SIB', site, 'I0 = B(T[0])/pi * exp(-surface column) with the column already divided by mu',
             ok0 and not why0, key='I0 = %s %s' % (fmt(fl, val), '; '.join(why0)),
             detail='I0 = %s %s' % (fmt(fl, val), '; '.join(why0)), loc=f.loc(node))
-    sc = [x for x in fl.of('assign') if x.name == 'surface_tau' and x.op is None and not x.loops]
-    oks = any(fl.tab.equal(x.value, kt['S'] * b['mu']) and not x.guards for x in sc)
+    scaled = kt['S'] * b['mu']
+    sc = [x for x in fl.of('assign') if x.op is None and not x.loops and x.value is not None and
+          (fl.tab.equal(x.value, scaled) or kt['S'].single_atom() in x.value.all_atoms())]
+    oks = any(fl.tab.equal(x.value, scaled) and not x.guards for x in sc)
     R.check(pfx + '.kscale', 'SIB', site, 'the non-molecule surface column is divided by mu once (surface_tau * (1/mu))',
             oks, key='scale %s' % [fmt(fl, x.value) for x in sc], detail='%s' % [fmt(fl, x.value) for x in sc], loc=f.loc())
 
